@@ -160,7 +160,9 @@ int Sched::run(uint64_t max_switches) {
       for (Task* x : tasks_) if (x->st != Task::DONE) return 1;
       return 0;
     }
+    if (before_switch_) before_switch_(t);
     switch_to(t);
+    if (after_switch_) after_switch_();
   }
 }
 
@@ -171,6 +173,21 @@ void Sched::yield() {
   if (__sanitizer_start_switch_fiber) __sanitizer_start_switch_fiber(&t->fake, g_main_bottom, g_main_size);
   swapcontext(&t->uc, &main_);
   if (__sanitizer_finish_switch_fiber) __sanitizer_finish_switch_fiber(t->fake, &g_main_bottom, &g_main_size);
+}
+
+void Sched::finish_current() {
+  Task* t = cur_;
+  if (!t) { fprintf(stderr, "zsim: finish_current() outside task\n"); abort(); }
+  t->st = Task::DONE;
+  if (__sanitizer_start_switch_fiber) __sanitizer_start_switch_fiber(nullptr, g_main_bottom, g_main_size);
+  swapcontext(&t->uc, &main_);
+  abort();  // never resumed
+}
+
+size_t Sched::runnable_count() {
+  size_t n = 0;
+  for (Task* t : tasks_) if (t->st == Task::RUNNABLE) n++;
+  return n;
 }
 
 void Sched::block() {
